@@ -56,7 +56,7 @@ pub fn child_main(dir: &str, script: &str) -> i32 {
                 let mut r = std::panic::catch_unwind(|| Nomt::<H>::open(cfg.options(&dir)));
                 let mut tries = 0;
                 while let Ok(Err(e)) = &r {
-                    if tries > 200 || !format!("{:#}", e).contains("lock") {
+                    if tries > 200 || !(format!("{:#}", e).contains("lock") || crate::util::dir_lock_busy(dir.as_path())) {
                         break;
                     }
                     tries += 1;
@@ -333,7 +333,7 @@ pub fn verify_dir_ex(dir: &Path, cfg: &Cfg, cands: &[&Expect], keys: &[Key], vid
     let mut r = std::panic::catch_unwind(|| Nomt::<H>::open(cfg.options(&dir.to_path_buf())));
     let mut tries = 0;
     while let Ok(Err(e)) = &r {
-        if tries > 100 || !format!("{:#}", e).contains("lock") {
+        if tries > 100 || !(format!("{:#}", e).contains("lock") || crate::util::dir_lock_busy(dir)) {
             break;
         }
         tries += 1;
